@@ -496,6 +496,12 @@ KOpt == MergeAll(<<Pod, Opt("name", {"pods"}), Opt("apiVersion", GoodApiVer), Op
                    Opt("queue", {"q1"}), Opt("allowFailure", BoolLit)>>)
 DocsKOpt == {V1 @@ [kubernetes |-> <<k>>] : k \in KOpt}
 
+(* kopt2: two kubernetes bindings with independent option sets (an option of one binding must not leak into the other) *)
+KOptSmall == MergeAll(<<{[kind |-> "Pod"], [kind |-> "ConfigMap"]}, Opt("name", {"pods"}), Opt("executeHookOnEvent", {<<"Modified">>}),
+                        Opt("executeHookOnSynchronization", {"@false"}), Opt("keepFullObjectsInMemory", {"@false"}),
+                        Opt("queue", {"q1"}), Opt("allowFailure", {"@true"})>>)
+DocsKOpt2 == {V1 @@ [kubernetes |-> <<k1, k2>>] : k1 \in KOptSmall, k2 \in KOptSmall}
+
 (* ksel: one kubernetes binding, every combination of selectors *)
 NameSels  == {[matchNames |-> <<>>], [matchNames |-> <<"pod-0", "pod-1">>]}
 LabelSels == {[matchLabels |-> [myLabel |-> "myLabelValue"]],
@@ -590,6 +596,7 @@ Case(st, f, d, b) == [stratum |-> st, fault |-> f, doc |-> d, base |-> b, why |-
 FromStratum(name, S) == name \in Strata /\ \E d \in Pick(S) : c = Case(name, "none", d, d)
 
 Init == \/ FromStratum("kopt", DocsKOpt)
+        \/ FromStratum("kopt2", DocsKOpt2)
         \/ FromStratum("ksel", DocsKSel)
         \/ FromStratum("cross", {d \in DocsCross : RejectReason(d) = "ok"})        \* sampled separately:
         \/ FromStratum("crossrej", {d \in DocsCross : RejectReason(d) # "ok"})    \* most combinations are rejected
